@@ -58,8 +58,17 @@ func NewReport(prop, tier string, seed int64) *Report {
 }
 
 // Rule registers a rule's description and its instance floor.
-func (r *Report) Rule(id, text string, floor int) {
+// Rule registers a rule. confirmed is the number of instances confirmed by
+// reading when the rule was written; the run fails (exit 2) when fewer than
+// half of them (at least one) are found - a rule that matches nothing must not
+// pass vacuously, but merging two duplicated sites into a helper, or deleting
+// one of several sites, is an ordinary edit and must not trip the floor.
+func (r *Report) Rule(id, text string, confirmed int) {
 	r.RuleText[id] = text
+	floor := confirmed
+	if confirmed > 1 {
+		floor = (confirmed + 1) / 2
+	}
 	r.Floors[id] = floor
 	if _, ok := r.Instances[id]; !ok {
 		r.Instances[id] = 0
